@@ -737,6 +737,10 @@ fn macro_wrapping(cfg: &RunCfg, rep: &mut Report) {
         let m = g.module("X", &format!("{k}x0"), 1 + k % 6);
         snippets.push(m.defs.iter().map(|d| d.text.clone()).collect::<Vec<_>>().join("\n") + "\n");
     }
+    // snippets that do not end in a line break: the last token must stay apart from the footer's END
+    for tail in ["A ::= B", "A ::= INTEGER (0..255)", "a INTEGER ::= 5", "A ::= SEQUENCE { a BOOLEAN }", "A ::= INTEGER -- remark", "A ::= INTEGER -- remark --", "A ::= NULL /* c */", "A ::= ENUMERATED { x, y }  "] {
+        snippets.push(format!("B ::= BOOLEAN\n{tail}"));
+    }
     snippets.push("Broken ::= SEQUENCE { a INTEGER,, }\n".into());
     snippets.push("Full DEFINITIONS EXPLICIT TAGS ::= BEGIN A ::= SEQUENCE { a [0] INTEGER } END".into());
     // complete modules in every layout of the header: they are complete modules, whatever stands between `::=` and BEGIN
@@ -760,7 +764,7 @@ fn macro_wrapping(cfg: &RunCfg, rep: &mut Report) {
             continue;
         };
         let wrapped = compile_rasn(&[src.clone()]);
-        let explicit_src = if s.contains("BEGIN") { s.clone() } else { format!("Explicit-Module DEFINITIONS AUTOMATIC TAGS ::= BEGIN\n{s}END") };
+        let explicit_src = if s.contains("BEGIN") { s.clone() } else { format!("Explicit-Module DEFINITIONS AUTOMATIC TAGS ::= BEGIN\n{s}\nEND") };
         let explicit = compile_rasn(&[explicit_src]);
         let items = |o: &Outcome| -> Option<Vec<(String, String)>> {
             match o {
